@@ -105,33 +105,45 @@ func checkC19(c *Ctx) {
 			if len(calls) == 0 {
 				continue
 			}
+			// no path from the entry to a return may skip the applier, except over the "member is nil" edge of a test of
+			// a member (no owning client: nothing to apply)
 			okAll := true
-			ir.EachInstr(fn, func(blk *ssa.BasicBlock, _ int, in ssa.Instruction) {
-				r, ok := in.(*ssa.Return)
-				if !ok || blk == fn.Recover {
-					return
+			callBlock := map[*ssa.BasicBlock]bool{}
+			for _, cl := range calls {
+				callBlock[cl.Block()] = true
+			}
+			seenB := map[*ssa.BasicBlock]bool{fn.Blocks[0]: true}
+			stack := []*ssa.BasicBlock{fn.Blocks[0]}
+			for len(stack) > 0 {
+				blk := stack[len(stack)-1]
+				stack = stack[:len(stack)-1]
+				if callBlock[blk] {
+					continue // from here on the hook has been applied
 				}
-				passes := false
-				for _, cl := range calls {
-					if flow.Dominates(cl, r) {
-						passes = true
-					}
+				last := blk.Instrs[len(blk.Instrs)-1]
+				if _, isRet := last.(*ssa.Return); isRet && blk != fn.Recover {
+					okAll = false
+					break
 				}
-				if passes {
-					return
-				}
-				nilEdge := false
-				for _, g := range flow.Guards(fn, blk) {
-					if v, _, ok := nilCompare(g.If.Cond); ok {
+				skip := -1
+				if ifi, ok := last.(*ssa.If); ok {
+					if v, op, ok := nilCompare(ifi.Cond); ok {
 						if _, _, isField := ir.LoadedField(v); isField {
-							nilEdge = true
+							skip = 0 // == nil: the true successor is the nil edge
+							if op == token.NEQ {
+								skip = 1
+							}
 						}
 					}
 				}
-				if !nilEdge {
-					okAll = false
+				for i, sct := range blk.Succs {
+					if i == skip || seenB[sct] {
+						continue
+					}
+					seenB[sct] = true
+					stack = append(stack, sct)
 				}
-			})
+			}
 			if okAll {
 				appliers[fn] = true
 			}
